@@ -12,11 +12,12 @@ import ast
 import copy
 
 from .. import symx
-from ..cfg import ENTRY, EXIT, Assume, stmt_defs
+from ..cfg import ENTRY, EXIT, Assume, header_exprs, stmt_defs
 from ..core import (AnalysisIncomplete, arg_or_kw, call_name, const_value,
-                    names_loaded, params, u, walk_local)
+                    names_loaded, param_default, params, u, walk_expr,
+                    walk_local)
 from ..match import _closed_over, canon, classify, match_any
-from ..normal import is_pure
+from ..normal import MUTATING_METHODS, is_pure
 from ..patterns import (assigns_to, calls_in, check_no_arg_mutation, finfo,
                         returns_of, subscript_stores)
 
@@ -51,6 +52,7 @@ def check(ck):
     d3_committors(ck, mod)
     d_mfpts(ck, mod)
     d6_sparse(ck, mod)
+    d8_hidden_state(ck, mod)
     check_no_arg_mutation(ck, 'C07.D1.inputs-unmodified', [
         (CO, 'committors'), (CO, 'mfpts'), (CO, '_I_m_Q')])
     return EXPLANATION
@@ -408,30 +410,445 @@ def _flat_int_forms(nm):
     return out
 
 
+def _single_name_target(s):
+    if isinstance(s, ast.Assign) and len(s.targets) == 1 and isinstance(s.targets[0], ast.Name):
+        return s.targets[0].id
+    if isinstance(s, ast.AnnAssign) and isinstance(s.target, ast.Name) and s.value is not None:
+        return s.target.id
+    return None
+
+
+def _index_position(mod, fn, n):
+    """The expression node `n` stands (syntactically) where an index set is
+    consumed: inside the slice of a subscript, or inside an argument of the
+    masking helper."""
+    c, p = n, mod.parent.get(n)
+    while p is not None and p is not fn and not isinstance(p, ast.stmt):
+        if isinstance(p, ast.Subscript) and c is p.slice:
+            return True
+        if isinstance(p, ast.Call) and call_name(p) == HELPER and c is not p.func:
+            return True
+        c, p = p, mod.parent.get(p)
+    return False
+
+
+def _flows_to_index(mod, fn, fi, n, depth=4):
+    """True: the value read at `n` reaches an index position (directly or
+    through local temporaries); False: it provably does not (it is consumed by
+    a test / a raise / a call statement); None: cannot tell."""
+    if _index_position(mod, fn, n):
+        return True
+    s = fi.stmt(n)
+    if isinstance(s, (ast.If, ast.While, ast.Assert, ast.Raise)) or (isinstance(s, ast.Expr) and isinstance(s.value, ast.Call)):
+        return False
+    t = _single_name_target(s) if s is not None else None
+    if t is None or depth <= 0:
+        return None
+    res = False
+    for m in walk_local(fn):
+        if isinstance(m, ast.Name) and m.id == t and isinstance(m.ctx, ast.Load) and s in fi.defs_of_use(m):
+            r = _flows_to_index(mod, fn, fi, m, depth - 1)
+            if r:
+                return True
+            if r is None:
+                res = None
+    return res
+
+
 def index_set(ck, rule, mod, fn, fi, function, nm, stmts, anchor):
-    """`nm` (a parameter holding a state set) is rebound exactly once inside
-    `stmts` to a flat integer array of itself, and every other use inside
-    `stmts` sees that array (not the caller's raw object)."""
+    """The state set held by parameter `nm` is normalised exactly once inside
+    `stmts` to a flat integer array of itself, and nothing inside `stmts`
+    indexes with the caller's raw object.  The array is located by its role
+    ("the flat integer array made from the parameter"), under either of the
+    two spellings: the parameter name is REBOUND to it, or it is bound to a
+    NEW local (bound once).  Returns (definition site, name that denotes the
+    index array from there on) or None."""
     nodes = _nodes(stmts)
+    ok_txt = '%s normalised to a flat integer array (advanced indexing => copies)' % nm
+    bad_txt = '%s must be converted to a flat integer numpy array before it is used as an index' % nm
     sites = [s for s in nodes if isinstance(s, (ast.Assign, ast.AnnAssign, ast.AugAssign)) and s in assigns_to(fn, nm)]
-    if not sites:
-        ck.bad(rule, mod, anchor, function, nm,
-               '%s must be converted to a flat integer numpy array before it is used as an index' % nm)
+    if sites:
+        if len(sites) != 1 or fi.def_value(sites[0], nm) is None:
+            ck.missing(rule, 'single conversion of `%s` to a flat integer array in %s (found %d rebinding(s))' % (nm, function, len(sites)))
+            return None
+        site = sites[0]
+        v = classify(xp(fi, mod, fi.def_value(site, nm), stop=(nm,)), _flat_int_forms(nm), scope={nm})
+        ck.decide(v, rule, mod, site, function, u(site), ok_txt, bad_txt)
+        raw = [n for n in nodes if isinstance(n, ast.Name) and n.id == nm and isinstance(n.ctx, ast.Load)
+               and fi.stmt(n) is not site and fi.defs_of_use(n) != {site}]
+        if raw:
+            ck.bad(rule, mod, raw[0], function, '%s used at L%s' % (nm, getattr(raw[0], 'lineno', '?')),
+                   '%s is used before/without its conversion to a flat integer array' % nm)
+        return site, nm
+    # the parameter keeps the caller's object: the index array is a new local
+    cands = []
+    for s in nodes:
+        t = _single_name_target(s)
+        if t is None or t == nm or len(_binders(fi, t)) != 1 or _in_loop(mod, fn, s):
+            continue
+        val = fi.def_value(s, t)
+        if val is None or nm not in names_loaded(fi.expand(val, stop=(nm,))):
+            continue
+        if classify(xp(fi, mod, val, stop=(nm,)), _flat_int_forms(nm), scope={nm})[0] == 'match':
+            cands.append((s, t))
+    raw = [n for n in nodes if isinstance(n, ast.Name) and n.id == nm and isinstance(n.ctx, ast.Load)]
+    if len(cands) > 1:
+        ck.missing(rule, 'single conversion of `%s` to a flat integer array in %s (found %d: %s)'
+                   % (nm, function, len(cands), ', '.join(t for _, t in cands)))
         return None
-    if len(sites) != 1 or fi.def_value(sites[0], nm) is None:
-        ck.missing(rule, 'single conversion of `%s` to a flat integer array in %s (found %d rebinding(s))' % (nm, function, len(sites)))
+    if not cands:
+        flows = [(n, _flows_to_index(mod, fn, fi, n)) for n in raw]
+        direct = [n for n, f in flows if f]
+        if direct:
+            ck.bad(rule, mod, direct[0], function, nm, bad_txt)
+        else:
+            ck.missing(rule, 'conversion of `%s` to a flat integer array in %s' % (nm, function))
         return None
-    site = sites[0]
-    v = classify(xp(fi, mod, fi.def_value(site, nm), stop=(nm,)), _flat_int_forms(nm), scope={nm})
-    ck.decide(v, rule, mod, site, function, u(site),
-              '%s normalised to a flat integer array (advanced indexing => copies)' % nm,
-              '%s must be converted to a flat integer numpy array before it is used as an index' % nm)
-    raw = [n for n in nodes if isinstance(n, ast.Name) and n.id == nm and isinstance(n.ctx, ast.Load)
-           and fi.stmt(n) is not site and fi.defs_of_use(n) != {site}]
-    if raw:
-        ck.bad(rule, mod, raw[0], function, '%s used at L%s' % (nm, getattr(raw[0], 'lineno', '?')),
-               '%s is used before/without its conversion to a flat integer array' % nm)
-    return site
+    site, t = cands[0]
+    ck.ok(rule, mod, site, u(site), ok_txt + ' (held in the new local `%s`)' % t)
+    # the raw object may only feed the conversion
+    feeding = {id(site)}
+    grew = True
+    while grew:
+        grew = False
+        for s in nodes:
+            tt = _single_name_target(s)
+            if tt is None or id(s) in feeding or len(_binders(fi, tt)) != 1:
+                continue
+            uses = [m for m in walk_local(fn) if isinstance(m, ast.Name) and m.id == tt and isinstance(m.ctx, ast.Load)]
+            if uses and all(id(fi.stmt(m)) in feeding for m in uses):
+                feeding.add(id(s))
+                grew = True
+    for n in raw:
+        if id(fi.stmt(n)) in feeding:
+            continue
+        f = _flows_to_index(mod, fn, fi, n)
+        if f:
+            ck.bad(rule, mod, n, function, '%s used at L%s' % (nm, getattr(n, 'lineno', '?')),
+                   '%s is used before/without its conversion to a flat integer array' % nm)
+        elif f is None:
+            ck.missing(rule, 'use of the raw `%s` next to its flat integer array `%s`: %s' % (nm, t, u(fi.stmt(n))[:100]))
+    return site, t
+
+
+# ---------------------------------------------------------------------------
+# D8 hidden state.  The property quantifies over ALL inputs in any order of
+# calls: what committors / mfpts return is a function of the arguments of THIS
+# call.  A value that reaches the result from state that outlives the call (a
+# module-level memo / "last result" object, a `global`, a mutable default
+# argument) is admissible only if the decision "reuse or recompute" examines
+# the CONTENTS of every argument the stored value was computed from.  id(x),
+# `x is y`, x.shape / x.dtype / len(x) identify the container object or its
+# geometry, not its contents: an array refilled in place, or a new array
+# allocated at the address of a freed one, is taken for the earlier chain.
+# (same analysis as C08.D3.committors.hidden-state, refined by the 'meta' kind
+# and multi-definition names; candidate for promotion to sa/rules/extra.py)
+
+STATE_MUTATORS = MUTATING_METHODS | {'move_to_end', 'appendleft', 'extendleft', 'popleft', 'difference_update', 'intersection_update',
+                                    'symmetric_difference_update', 'setdefault', '__setitem__', '__delitem__'}
+MEMO_DECORATORS = {'lru_cache', 'cache', 'cached', 'memoize', 'memoized', 'memoise', 'cached_property'}
+MUTABLE_CTORS = {'dict', 'list', 'set', 'OrderedDict', 'defaultdict', 'deque', 'Counter', 'WeakValueDictionary', 'WeakKeyDictionary'}
+CONTENT_DIGESTS = {'tobytes', 'tostring', 'tolist', 'tuple', 'bytes', 'array_equal', 'array_equiv', 'allclose'}
+IDENTITY_CALLS = {'id'}
+META_ATTRS = {'shape', 'ndim', 'dtype', 'size', 'itemsize', 'nbytes', 'strides', 'flags', 'format', 'nnz'}
+META_CALLS = {'len', 'type', 'isinstance', 'issparse', 'isspmatrix'}
+
+
+def _module_level_names(tree):
+    out = set()
+    stack = list(reversed(tree.body))
+    while stack:
+        s = stack.pop()
+        if isinstance(s, (ast.FunctionDef, ast.AsyncFunctionDef, ast.ClassDef)):
+            out.add(s.name)
+            continue
+        if isinstance(s, (ast.Assign, ast.AugAssign, ast.AnnAssign)):
+            for t in (s.targets if isinstance(s, ast.Assign) else [s.target]):
+                out.update(n.id for n in ast.walk(t) if isinstance(n, ast.Name) and isinstance(n.ctx, ast.Store))
+        for f in ('body', 'orelse', 'finalbody', 'handlers'):
+            for ch in reversed(getattr(s, f, []) or []):
+                if isinstance(ch, (ast.stmt, ast.ExceptHandler)):
+                    stack.append(ch)
+    return out
+
+
+def _scope_names(fn):
+    """(names local to fn, names fn declares global)."""
+    loc, glob = set(params(fn)), set()
+    for n in walk_local(fn):
+        if isinstance(n, (ast.Global, ast.Nonlocal)):
+            glob.update(n.names)
+        elif isinstance(n, ast.Name) and isinstance(n.ctx, (ast.Store, ast.Del)):
+            loc.add(n.id)
+        elif isinstance(n, (ast.FunctionDef, ast.AsyncFunctionDef, ast.ClassDef)):
+            loc.add(n.name)
+        elif isinstance(n, (ast.Import, ast.ImportFrom)):
+            loc.update((a.asname or a.name).split('.')[0] for a in n.names)
+        elif isinstance(n, ast.ExceptHandler) and n.name:
+            loc.add(n.name)
+    return loc - glob, glob
+
+
+def _root_name(e):
+    while isinstance(e, (ast.Attribute, ast.Subscript, ast.Starred)):
+        e = e.value
+    return e.id if isinstance(e, ast.Name) else None
+
+
+def _mutable_default(fn, p):
+    d = param_default(fn, p)
+    if isinstance(d, (ast.Dict, ast.List, ast.Set, ast.ListComp, ast.DictComp, ast.SetComp)):
+        return True
+    return isinstance(d, ast.Call) and (call_name(d) or '').split('.')[-1] in MUTABLE_CTORS
+
+
+def state_writes(fn, module_names):
+    """[(node, state name, stored value or None)]: where fn writes state that
+    outlives the call - a store through / a mutating method of a module-level
+    name (not shadowed by a local), an assignment to a `global`, a store into
+    a parameter with a mutable default."""
+    loc, glob = _scope_names(fn)
+    sticky = {p for p in params(fn) if _mutable_default(fn, p)}
+
+    def outlives(name):
+        if name is None:
+            return False
+        if name in glob or name in sticky:
+            return True
+        return name in module_names and name not in loc
+    out = []
+    for s in walk_local(fn):
+        if isinstance(s, (ast.Assign, ast.AugAssign, ast.AnnAssign)):
+            flat = []
+            for t in (s.targets if isinstance(s, ast.Assign) else [s.target]):
+                flat += list(t.elts) if isinstance(t, (ast.Tuple, ast.List)) else [t]
+            for t in flat:
+                if isinstance(t, (ast.Subscript, ast.Attribute)) and outlives(_root_name(t)):
+                    out.append((s, _root_name(t), s.value))
+                elif isinstance(t, ast.Name) and t.id in glob:
+                    out.append((s, t.id, s.value))
+        elif isinstance(s, ast.Delete):
+            for t in s.targets:
+                if isinstance(t, (ast.Subscript, ast.Attribute)) and outlives(_root_name(t)):
+                    out.append((s, _root_name(t), None))
+        elif isinstance(s, ast.Call) and isinstance(s.func, ast.Attribute) and s.func.attr in STATE_MUTATORS \
+                and outlives(_root_name(s.func.value)):
+            vals = list(s.args) + [k.value for k in s.keywords]
+            out.append((s, _root_name(s.func.value), ast.Tuple(elts=vals, ctx=ast.Load()) if len(vals) != 1 else vals[0]))
+    return out
+
+
+def state_reads(fi, expr, is_state, depth=10):
+    """Name(Load) nodes in the backward slice of expr (through the reaching
+    definitions) that read a name which is not bound by this call."""
+    out, seen = [], set()
+
+    def visit(e, d):
+        for n in walk_expr(e):
+            if not (isinstance(n, ast.Name) and isinstance(n.ctx, ast.Load)):
+                continue
+            try:
+                defs = fi.defs_of_use(n)
+            except Exception:
+                defs = set()
+            if not defs or 'UNBOUND' in defs:
+                if is_state(n.id, False):
+                    out.append(n)
+            elif 'PARAM' in defs and is_state(n.id, True):
+                out.append(n)
+            for site in defs:
+                if isinstance(site, str):
+                    continue
+                key = (id(site), n.id)
+                if key in seen or d <= 0:
+                    continue
+                seen.add(key)
+                v = fi.def_value(site, n.id)
+                if v is not None:
+                    visit(v, d - 1)
+                    continue
+                tg = getattr(site, 'targets', None) or [getattr(site, 'target', None)]
+                for e2 in header_exprs(site):
+                    if isinstance(site, (ast.Assign, ast.AugAssign, ast.AnnAssign, ast.For, ast.AsyncFor)) and any(e2 is t for t in tg):
+                        continue
+                    visit(e2, d - 1)
+    visit(expr, depth)
+    return out
+
+
+def param_occurrences(fi, expr, pnames):
+    """{param: subset of {'identity', 'meta', 'content', 'other'}}: how the
+    parameters enter the value of `expr` (names are followed through ALL their
+    reaching definitions, pure or not - only the shape of the dependence
+    matters).  identity: inside id(...) / an `is` comparison; meta: through
+    .shape/.dtype/len()/type() ... (the geometry or class of the container);
+    content: inside a digest of the elements (tobytes, tuple, array_equal);
+    other: anything else, including names that cannot be followed."""
+    occ = {}
+    active = set()
+
+    def walk(e, ctx, d):
+        if isinstance(e, ast.Name):
+            if not isinstance(e.ctx, ast.Load):
+                return
+            try:
+                defs = fi.defs_of_use(e)
+            except Exception:
+                defs = set()
+            for site in defs:
+                if site == 'PARAM':
+                    if e.id in pnames:
+                        occ.setdefault(e.id, set()).add(ctx)
+                    continue
+                if isinstance(site, str):
+                    continue
+                v = fi.def_value(site, e.id)
+                if v is not None and d > 0 and id(site) not in active:
+                    active.add(id(site))
+                    walk(v, ctx, d - 1)
+                    active.discard(id(site))
+                elif v is None or d <= 0:
+                    for p in fi.derives_from(e)[0]:
+                        if p in pnames:
+                            occ.setdefault(p, set()).add('other' if ctx not in ('identity', 'meta') else ctx)
+            return
+        c = ctx
+        if isinstance(e, ast.Call):
+            last = (call_name(e) or '').split('.')[-1]
+            if ctx in ('identity', 'meta'):
+                pass                    # the id / the geometry of anything derived: still no contents
+            elif last in IDENTITY_CALLS:
+                c = 'identity'
+            elif last in META_CALLS:
+                c = 'meta'
+            elif last in CONTENT_DIGESTS:
+                c = 'content'
+        elif isinstance(e, ast.Attribute) and e.attr in META_ATTRS and ctx != 'identity':
+            c = 'meta'
+        elif isinstance(e, ast.Compare) and all(isinstance(o, (ast.Is, ast.IsNot)) for o in e.ops) and ctx == 'other':
+            c = 'identity'
+        for ch in ast.iter_child_nodes(e):
+            walk(ch, c, d)
+    walk(expr, 'other', 10)
+    return occ
+
+
+def _reachable_functions(mod, roots):
+    """Module-level functions reachable from `roots` through plain calls."""
+    seen, todo = [], [r for r in roots if r in mod.functions]
+    while todo:
+        q = todo.pop()
+        if q in seen:
+            continue
+        seen.append(q)
+        for c in calls_in(mod.functions[q]):
+            if isinstance(c.func, ast.Name) and c.func.id in mod.functions and c.func.id not in seen:
+                todo.append(c.func.id)
+    return seen
+
+
+def d8_hidden_state(ck, mod, roots=('committors', 'mfpts', HELPER)):
+    rule = 'C07.D8.hidden-state'
+    module_names = _module_level_names(mod.tree)
+    top = {q: fn for q, fn in mod.functions.items() if '<locals>' not in q and '.' not in q}
+    per_fn = {q: state_writes(fn, module_names) for q, fn in top.items()}
+    writes = {}
+    for q, ws in per_fn.items():
+        for node, name, val in ws:
+            writes.setdefault(name, []).append((q, node, val))
+    n_scanned = 0
+    for q in _reachable_functions(mod, roots):
+        fn = mod.functions[q]
+        n_scanned += 1
+        decs = [(call_name(d) if isinstance(d, ast.Call) else u(d)) or '' for d in fn.decorator_list]
+        memo = [d for d in decs if d.split('.')[-1] in MEMO_DECORATORS]
+        if memo:
+            ck.missing(rule, '%s is wrapped in the memoising decorator %s: whether its key covers the contents of every argument is not decided'
+                       % (q, memo[0]))
+            continue
+        fi = finfo(mod, fn)
+        loc, glob = _scope_names(fn)
+        own = {name for _, name, _ in per_fn.get(q, [])}
+
+        def is_state(name, is_param, _loc=loc, _glob=glob, _own=own):
+            if is_param:
+                return name in _own         # a parameter with a mutable default that fn stores into
+            return name in writes and (name in _glob or name not in _loc)
+        reads = []
+        for r in returns_of(fn):
+            if r.value is not None:
+                reads += state_reads(fi, r.value, is_state)
+        if not reads:
+            ck.ok(rule, mod, fn, '%s: module state written in %s: %s' % (q, mod.rel, sorted(writes) or 'none'),
+                  'no returned value is read from state that outlives the call (the result depends on the arguments only)')
+            continue
+        P = set(params(fn))
+        for name in sorted({n.id for n in reads}):
+            rnodes = [n for n in reads if n.id == name]
+            rstmts = [fi.stmt(n) for n in rnodes if fi.stmt(n) is not None]
+            rstmt = rstmts[0] if rstmts else fn
+            mine = [(fi.stmt(node) or node, val) for node, nm, val in per_fn.get(q, []) if nm == name]
+            others = sorted({w[0] for w in writes.get(name, []) if w[0] != q})
+            if not mine:
+                ck.missing(rule, 'the value returned by %s is computed from the module-level object `%s`, which %s write(s): the result '
+                           'depends on calls made before this one (not decided how)' % (q, name, ', '.join(others)))
+                continue
+            wstmts = [st for st, _ in mine]
+            stale = [r for r in rstmts if r in wstmts or fi.cfg.reachable(ENTRY, r, avoiding=wstmts)]
+            if not stale:
+                ck.missing(rule, '%s routes a value through the module-level object `%s`, written on every path to the read: whether the '
+                           'value read is the one stored by this call is not decided' % (q, name))
+                continue
+            dep = set()
+            for st, val in mine:
+                if val is not None:
+                    for p_, kinds in param_occurrences(fi, val, P).items():
+                        if kinds & {'other', 'content'}:
+                            dep.add(p_)
+            guards = []
+            for st, val in mine:
+                for a in fi.cfg.nodes:
+                    if isinstance(a, Assume) and fi.cfg.dominates(a, st) and a.test not in [g.test for g in guards]:
+                        guards.append(a)
+            if not dep:
+                ck.missing(rule, '%s returns a value read from the module-level object `%s` that it also writes; what is stored does not '
+                           'derive from the contents of its parameters' % (q, name))
+                continue
+            if not guards:
+                ck.missing(rule, '%s reads the module-level object `%s` on a path that skips its own store; the condition under which the '
+                           'store is skipped was not located' % (q, name))
+                continue
+            occ = {}
+            for g in guards:
+                for p_, kinds in param_occurrences(fi, g.test, dep).items():
+                    occ.setdefault(p_, set()).update(kinds)
+            absent = sorted(p_ for p_ in dep if not occ.get(p_))
+            blind = sorted(p_ for p_ in dep if occ.get(p_) and occ[p_] <= {'identity', 'meta'})
+            unknown = sorted(p_ for p_ in dep if occ.get(p_) and 'other' in occ[p_] and 'content' not in occ[p_])
+            tests = ' / '.join('`%s`' % u(g.test)[:100] for g in guards)
+            if absent or blind:
+                why = []
+                if blind:
+                    why.append('%s enter(s) it only through id() / `is` / shape / dtype / len, which identify the container object and its '
+                               'geometry, not its contents (the same array refilled in place, or a new one allocated at the address of a '
+                               'freed one - e.g. the temporary a sparse input is densified into - is taken for the previous chain)'
+                               % ', '.join('`%s`' % p_ for p_ in blind))
+                if absent:
+                    why.append('%s do(es) not enter it at all' % ', '.join('`%s`' % p_ for p_ in absent))
+                where = 'mutable default argument' if name in P else 'module-level object'
+                ck.bad(rule, mod, rstmt, q, 'result of %s read from module-level `%s`' % (q, name),
+                       'what %s returns must be computed from the arguments of THIS call (the first-step equations hold for every chain, '
+                       'whatever was analysed before). `%s` reaches the result from the %s `%s`, which an earlier call filled from the '
+                       'contents of (%s); it is recomputed only when %s, and %s: a later call with other contents combines the stale '
+                       'stored value with its own transition matrix'
+                       % (q, u(rstmt)[:120], where, name, ', '.join(sorted(dep)), tests, '; '.join(why)))
+            elif unknown:
+                ck.missing(rule, '%s reuses a value stored in module-level `%s` unless %s; whether that test compares the contents of %s is '
+                           'not recognised' % (q, name, tests, ', '.join(unknown)))
+            else:
+                ck.missing(rule, '%s keeps a memo in module-level `%s` keyed on the contents of %s: consistency of key and value stores not '
+                           'decided' % (q, name, ', '.join(sorted(dep))))
+    ck.floor(rule, n_scanned, 3, 'functions scanned for results read from module state')
 
 
 # ---------------------------------------------------------------------------
@@ -516,13 +933,53 @@ def d2_masking(ck, mod):
 # ---------------------------------------------------------------------------
 # shared: the (I - Q) operand of a solver call
 
-def _imq_call(ck, rule, mod, fn, fi, function, solve):
-    """The solver's matrix operand is the result of _I_m_Q(...): returns the call."""
+# One-argument constructors/conversions that keep the element values of a
+# dense ndarray and only change the CONTAINER.  'matrix': the result has
+# numpy.matrix semantics (scipy.sparse *_matrix, np.matrix): reductions keep
+# two dimensions and `*` is the matrix product; 'array': ndarray / sparse
+# array semantics.
+CONTAINER_WRAPPERS = {}
+for _fmt in ('csc', 'csr', 'lil', 'coo', 'dok', 'bsr', 'dia'):
+    CONTAINER_WRAPPERS[_fmt + '_matrix'] = 'matrix'
+    CONTAINER_WRAPPERS[_fmt + '_array'] = 'array'
+CONTAINER_WRAPPERS.update({'matrix': 'matrix', 'asmatrix': 'matrix', 'mat': 'matrix',
+                           'asarray': 'array', 'ascontiguousarray': 'array', 'asanyarray': 'array'})
+
+
+def _peel_containers(fi, e):
+    """Strip value-preserving container conversions `f(X)` (one positional
+    argument, no keywords - a dtype/copy keyword is not looked through) and
+    single-definition name chains: returns (inner expression, [(call, kind)],
+    ok)."""
+    wrappers = []
+    for _ in range(8):
+        e, ok = origin(fi, e)
+        if not ok:
+            return e, wrappers, False
+        if isinstance(e, ast.Call) and len(e.args) == 1 and not e.keywords and not isinstance(e.args[0], ast.Starred):
+            kind = CONTAINER_WRAPPERS.get((call_name(e) or '').split('.')[-1])
+            if kind is not None and call_name(e) != HELPER:
+                wrappers.append((e, kind))
+                e = e.args[0]
+                continue
+        break
+    return e, wrappers, True
+
+
+def _imq_call(ck, rule, mod, fn, fi, function, solve, wrappers=None):
+    """The solver's matrix operand is the result of _I_m_Q(...), possibly
+    passed through value-preserving container conversions (appended to
+    `wrappers` when the caller wants to judge them; otherwise any conversion
+    makes the operand unrecognised): returns the _I_m_Q call."""
     A = arg_or_kw(solve, 0, 'A') or arg_or_kw(solve, None, 'a')
     if A is None:
         ck.missing(rule, 'matrix operand of %s' % u(solve)[:80])
         return None
-    e, ok = origin(fi, A)
+    if wrappers is None:
+        e, ok = origin(fi, A)
+    else:
+        e, ws, ok = _peel_containers(fi, A)
+        wrappers.extend(ws)
     if not ok or not (isinstance(e, ast.Call) and call_name(e) == HELPER):
         ck.missing(rule, 'matrix operand of the linear solve in %s is not (an unmodified) result of %s: %s' % (function, HELPER, u(e)[:80]))
         return None
@@ -607,11 +1064,16 @@ def d3_committors(ck, mod):
     fn = mod.func(F)
     ck.analysed(mod, fn)
     fi = finfo(mod, fn)
-    tprob, sources, sinks = params(fn)[:3]
-    stop = (tprob, sources, sinks)
-    # normalisation of index sets to flat int arrays
-    for nm in (sources, sinks):
-        index_set(ck, rule + '.sets', mod, fn, fi, F, nm, fn.body, fn)
+    tprob, p_sources, p_sinks = params(fn)[:3]
+    # normalisation of index sets to flat int arrays; from here on `sources`
+    # and `sinks` are the names that denote the index ARRAYS (the rebound
+    # parameters in the pinned spelling, new locals in others)
+    held = {}
+    for nm in (p_sources, p_sinks):
+        r = index_set(ck, rule + '.sets', mod, fn, fi, F, nm, fn.body, fn)
+        held[nm] = r[1] if r else nm
+    sources, sinks = held[p_sources], held[p_sinks]
+    stop = tuple(dict.fromkeys((tprob, sources, sinks, p_sources, p_sinks)))
     # the linear solve
     solves = _solver_calls(walk_local(fn))
     if len(solves) != 1:
@@ -619,7 +1081,8 @@ def d3_committors(ck, mod):
         return
     solve = solves[0]
     ss = fi.stmt(solve)
-    imq = _imq_call(ck, rule + '.absorbing', mod, fn, fi, F, solve)
+    wrappers = []
+    imq = _imq_call(ck, rule + '.absorbing', mod, fn, fi, F, solve, wrappers)
     if imq is not None:
         pair = ['%s, %s' % (sources, sinks), '%s, %s' % (sinks, sources)]
         forms = []
@@ -684,6 +1147,7 @@ def d3_committors(ck, mod):
             return
         _pins(ck, rule + '.final-pin', mod, fn, fi, F, Cn, {sinks: 1}, stop, r[0], pin_ok, pin_bad,
               construct_missing='committors[sinks] = 1.0', also={sources: 0}, after=loop, names={Cn})
+        _result_container(ck, rule + '.container', mod, fi, F, solve, ss, wrappers, tprob, None)
         return
     cv = fi.def_value(cm[0], C0)
     st = fi.xu(solve, stop=stop)
@@ -706,6 +1170,42 @@ def d3_committors(ck, mod):
               '(row-major (n_states, n_sinks)); another shape/axis mixes states and sinks')
     _pins(ck, rule + '.final-pin', mod, fn, fi, F, Cn, {sinks: 1}, stop, r[0], pin_ok, pin_bad,
           construct_missing='committors[sinks] = 1.0', also={sources: 0}, after=cm[0], names=Cnames)
+    _result_container(ck, rule + '.container', mod, fi, F, solve, ss, wrappers, tprob, v[0] == 'match')
+
+
+def _result_container(ck, rule, mod, fi, F, solve, ss, wrappers, tprob, direct):
+    """Dense and sparse input give the same VALUE, which includes its
+    container: a 1-D ndarray.  scipy's spsolve builds the multi-column
+    solution for a sparse right-hand side (R = tprob[:, sinks] of a sparse
+    tprob, two or more sinks) with the CLASS of its matrix operand.  The
+    dense ndarray that _I_m_Q returns is turned into a sparse ARRAY by
+    spsolve itself, so `B.reshape(n, k).sum(axis=1)` is 1-D; an operand
+    wrapped into a scipy.sparse *_matrix / np.matrix has matrix semantics and
+    the same reduction gives an (n, 1) numpy.matrix.  `direct`: the returned
+    array is exactly that reduction of the solver's result (True), something
+    else (False), or a construct this rule does not follow (None)."""
+    mat = [w for w, k in wrappers if k == 'matrix']
+    if mat and (call_name(solve) or '').split('.')[-1] != 'spsolve':
+        ck.missing(rule, 'container of the solution of %s for a matrix-semantics operand %s' % (call_name(solve), u(mat[0])[:80]))
+        return
+    if not mat:
+        ck.ok(rule, mod, solve, u(solve), 'the solver gets the ndarray built by %s (or an array-semantics container of it): the summed '
+              'solution is a 1-D ndarray for dense and sparse input' % HELPER)
+        return
+    if _densified_before(mod, fi, tprob, ss):
+        ck.ok(rule, mod, solve, u(solve), 'sparse input is densified before the solve: the right-hand side and the solution are ndarrays')
+        return
+    if direct:
+        ck.bad(rule, mod, mat[0], F, 'matrix operand of the solve: %s' % u(mat[0]),
+               'the matrix operand of spsolve is wrapped into `%s` (numpy.matrix semantics). For a sparse %s and two or more sinks '
+               'the right-hand side is sparse and spsolve returns the solution in the class of its matrix operand; the reduction '
+               '`.reshape(n_states, n_sinks).sum(axis=1)` of a sparse MATRIX is an (n_states, 1) numpy.matrix, not the 1-D ndarray '
+               'obtained for dense input (dense and sparse inputs must give the same values): pass the ndarray from %s (or a '
+               '*_array container), or convert the result back with np.asarray(...).ravel()'
+               % ((call_name(mat[0]) or '?'), tprob, HELPER))
+    else:
+        ck.missing(rule, 'the matrix operand of the solve has matrix semantics (%s): whether the returned committors are converted back '
+                   'to a 1-D ndarray is not decided' % u(mat[0])[:80])
 
 
 RESHAPE2 = ['_S.reshape(_N, _K)', '_S.reshape((_N, _K))', 'np.reshape(_S, (_N, _K))']
@@ -1225,7 +1725,9 @@ def d5_all_pairs(ck, mod, fn, fi, F, node, results, tprob, pops, lag):
 
 
 def d3_sink_set(ck, mod, fn, fi, F, node, sset, results, tprob, sinks, pops, lag):
-    index_set(ck, 'C07.D3.mfpt-sinks', mod, fn, fi, F, sinks, sset, node)
+    r = index_set(ck, 'C07.D3.mfpt-sinks', mod, fn, fi, F, sinks, sset, node)
+    if r:
+        sinks = r[1]            # the name that denotes the index ARRAY inside the branch
     nodes = _nodes(sset)
     solves = _solver_calls(nodes)
     if len(solves) != 1:
